@@ -9,7 +9,8 @@
    reachable cfg g  :=  exists tr, grun fixed cfg (ginit cfg) tr = Some g. *)
 From Coq Require Import List Arith Bool.
 From PV Require Import Model.Pool Proofs.PoolProofs Model.PoolLaunch Proofs.PoolLaunchProofs
-  Model.GrpcJsonStart Proofs.GrpcJsonStartProofs Model.GrpcWarmUp Proofs.GrpcWarmUpProofs.
+  Model.GrpcJsonStart Proofs.GrpcJsonStartProofs Model.GrpcWarmUp Proofs.GrpcWarmUpProofs
+  Model.EncAggrRun Proofs.EncAggrRunProofs Model.PlugFactory Proofs.PlugFactoryProofs.
 Import ListNotations.
 
 (* the correspondence run and the theorems are about the same variant of the code *)
@@ -447,4 +448,135 @@ Example C05_example_grpc_warmup :
   warm_up tree_policy (rf 5) cp = WOk ([(0, 0); (0, 1); (2, 0)], 1) /\ gw_spec_fails (rf 5) = false /\
   (exists g er, grun fixed [1] (ginit [1]) [GvPool 0 (PvPre (gw_pre_outcome (warm_up tree_policy (rf 7) cp))); GvEngRecv 0] = Some g /\
      eng g = Some er /\ er_res er = RFail CWarmUp /\ wait_returns g = true).
+Proof. repeat split. eexists. eexists. split; [vm_compute; reflexivity|repeat split]. Qed.
+
+(* ---- the aggregator as a component: the run loop of the encoder aggregator (Model/EncAggrRun.v) ---- *)
+
+(* For every run of the aggregator (whatever the select takes in whatever order, every outcome of every Encode /
+   Flush / Close): Run returns an error iff something it did to its encoder or sink went wrong. *)
+Theorem C05_enc_aggr_failure_iff_spec : forall e,
+  negb (match ea_run tree_epolicy e with [] => true | _ => false end) = ea_spec_fails e.
+Proof. exact ea_run_failure_iff_spec. Qed.
+Print Assumptions C05_enc_aggr_failure_iff_spec.
+
+Theorem C05_enc_aggr_nil_iff_nothing_failed : forall e, ea_run tree_epolicy e = [] <-> ea_spec_fails e = false.
+Proof. exact ea_run_tree_nil_iff. Qed.
+Print Assumptions C05_enc_aggr_nil_iff_nothing_failed.
+
+(* the error carries the FIRST thing that went wrong, and nothing that did not go wrong *)
+Theorem C05_enc_aggr_first_cause_carried : forall e, hd_error (ea_run tree_epolicy e) = ea_spec_first e.
+Proof. exact ea_run_first_cause. Qed.
+Print Assumptions C05_enc_aggr_first_cause_carried.
+
+Theorem C05_enc_aggr_no_invented_failure : forall e c, In c (ea_run tree_epolicy e) -> ea_occurs e c = true.
+Proof. exact ea_run_sound. Qed.
+Print Assumptions C05_enc_aggr_no_invented_failure.
+
+(* a failing periodic (flush-interval) flush in the middle of the run is what Run reports, whatever is queued or
+   happens afterwards (later flushes, the final flush and the close of the sink may all succeed) *)
+Theorem C05_enc_aggr_periodic_flush_failure_reported : forall e pre post,
+  ea_open e = true -> ea_events e = pre ++ EvTick false false :: post -> forallb ev_ok pre = true ->
+  hd_error (ea_run tree_epolicy e) = Some EcFlush.
+Proof. exact ea_periodic_flush_failure_reported. Qed.
+Print Assumptions C05_enc_aggr_periodic_flush_failure_reported.
+
+(* for ANY treatment of the two error branches of the handle loop (return / break HandleLoop / go on): nothing is
+   swallowed iff both return.  The tree's treatment is re-read from the source (Gen/EncAggr_bridge.v). *)
+Theorem C05_enc_aggr_policy_never_swallows_iff : forall pol,
+  (forall e, ea_spec_fails e = true -> ea_run pol e <> []) <-> (ep_sample pol = EaReturn /\ ep_tick pol = EaReturn).
+Proof. exact ea_policy_never_swallows_iff. Qed.
+Print Assumptions C05_enc_aggr_policy_never_swallows_iff.
+
+(* "break HandleLoop on a flush error, to handle the queued samples": the drain loop's `return nil` drops the error *)
+Theorem C05_enc_aggr_break_on_flush_error_refuted :
+  ea_spec_fails ea_flush_witness = true /\ ea_spec_first ea_flush_witness = Some EcFlush /\
+  ea_run break_on_flush_policy ea_flush_witness = [] /\ ea_run tree_epolicy ea_flush_witness = [EcFlush].
+Proof. exact ea_break_on_flush_error_swallows. Qed.
+Print Assumptions C05_enc_aggr_break_on_flush_error_refuted.
+
+(* the engine: once the await loop has taken the result of an aggregator run in which something went wrong, the
+   aggregator failure is among the failures of that pool -- from there C05_error_carried / C05_success_iff apply *)
+Theorem C05_enc_aggr_failure_is_recorded : forall v cfg g g' p e ch,
+  gstep v cfg g (GvPool p (PvMsg (AggrRes (ea_engine_err (ea_run tree_epolicy e))) ch)) = Some g' ->
+  ea_spec_fails e = true -> In (p, CAggr) (all_fails g').
+Proof. exact failing_aggregator_is_a_recorded_failure. Qed.
+Print Assumptions C05_enc_aggr_failure_is_recorded.
+
+(* ---- gun / schedule creation: the factory the plugin registry builds from a registered constructor
+        (Model/PlugFactory.v) ---- *)
+
+(* For every shape of registered constructor (implementation or interface result, with or without an error result,
+   already of the factory's type or not), both factory types and every outcome of the config fill and of the
+   constructor: a call of the factory gives exactly what the specification asks for -- the creation error as the
+   factory's error (as a panic carrying it when the factory type has no error result), the object otherwise. *)
+Theorem C05_plugin_factory_is_spec : forall numOut direct conf out,
+  valid_call numOut direct out ->
+  factory_call tree_cvprog numOut direct conf out = factory_spec numOut (eff_conf direct conf) out.
+Proof. exact factory_call_is_spec. Qed.
+Print Assumptions C05_plugin_factory_is_spec.
+
+Theorem C05_plugin_factory_creation_error_never_swallowed : forall numOut direct conf out e,
+  valid_call numOut direct out -> creation_error (eff_conf direct conf) out = Some e ->
+  factory_call tree_cvprog numOut direct conf out = if numOut =? 2 then FrErr e else FrPanic e.
+Proof. exact creation_error_never_swallowed. Qed.
+Print Assumptions C05_plugin_factory_creation_error_never_swallowed.
+
+Theorem C05_plugin_factory_ok_means_created : forall numOut direct conf out n,
+  valid_call numOut direct out -> factory_call tree_cvprog numOut direct conf out = FrOk n ->
+  creation_error (eff_conf direct conf) out = None /\ n = ctor_objnil out.
+Proof. exact factory_ok_means_created. Qed.
+Print Assumptions C05_plugin_factory_ok_means_created.
+
+(* whatever the first guarded statement of convertFactoryOutParams does: the factory is right for every constructor
+   iff the converted value replaces out[0] in place.  The tree's statements are re-read (Gen/PlugConv_bridge.v). *)
+Theorem C05_plugin_factory_first_step_right_iff : forall s1,
+  (forall numOut conf out, valid_call numOut false out ->
+     factory_call (prog_with s1) numOut false conf out = factory_spec numOut conf out) <-> s1 = CvWrapFirst.
+Proof. exact first_step_right_iff. Qed.
+Print Assumptions C05_plugin_factory_first_step_right_iff.
+
+(* rebuilding the result slice around the converted value drops the constructor's error *)
+Theorem C05_plugin_factory_rebuild_refuted :
+  valid_call 2 false [VImpl false; VErr (Some 7)] /\
+  creation_error None [VImpl false; VErr (Some 7)] = Some 7 /\
+  factory_call rebuild_cvprog 2 false None [VImpl false; VErr (Some 7)] = FrOk false /\
+  factory_call tree_cvprog 2 false None [VImpl false; VErr (Some 7)] = FrErr 7.
+Proof. exact rebuild_drops_the_constructor_error. Qed.
+Print Assumptions C05_plugin_factory_rebuild_refuted.
+
+(* the engine: in EVERY history (any pools, any interleaving, cancelled or not) in which the first call of a pool's
+   gun factory -- built by the registry from a constructor of any shape -- is a creation that failed, Engine.Run does
+   not return nil *)
+Theorem C05_plugin_factory_failure_fails_the_run : forall cfg tr g er p direct conf out e,
+  grun fixed cfg (ginit cfg) tr = Some g -> eng g = Some er ->
+  valid_call 2 direct out -> creation_error (eff_conf direct conf) out = Some e ->
+  In (GvPool p (PvPre (pf_pre_outcome (factory_call tree_cvprog 2 direct conf out)))) tr ->
+  er_res er <> RNil.
+Proof. exact failed_gun_creation_never_a_successful_run. Qed.
+Print Assumptions C05_plugin_factory_failure_fails_the_run.
+
+(* the encoder aggregator: two samples, a tick whose flush fails, more samples -- the flush failure is reported although
+   the final flush and the close succeed; with nothing failing Run returns nil; and the engine, given that result,
+   returns the aggregator failure *)
+Example C05_example_enc_aggr :
+  let e ok := {| ea_open := true; ea_events := [EvSample true; EvSample true; EvTick false ok; EvTick true false; EvSample true];
+                 ea_queued := [true]; ea_final := true; ea_close := true; ea_dropped := false |} in
+  ea_run tree_epolicy (e false) = [EcFlush] /\ ea_spec_fails (e false) = true /\
+  ea_run tree_epolicy (e true) = [] /\ ea_spec_fails (e true) = false /\
+  (exists g er, grun fixed [0] (ginit [0])
+     [GvPool 0 (PvPre PreOk); GvPool 0 (PvMsg (AggrRes (ea_engine_err (ea_run tree_epolicy (e false)))) ChSend); GvEngRecv 0] = Some g /\
+     eng g = Some er /\ er_res er = RFail CAggr).
+Proof. repeat split. eexists. eexists. split; [vm_compute; reflexivity|repeat split]. Qed.
+
+(* the usual Go constructor func(conf) ( *Impl, error) behind a func() (Plugin, error) factory: its error is the
+   factory's error, a failing config fill too, and a run whose pool step is that failing creation fails *)
+Example C05_example_plugin_factory :
+  factory_call tree_cvprog 2 false None [VImpl false; VErr (Some 3)] = FrErr 3 /\
+  factory_call tree_cvprog 2 false None [VImpl false; VErr None] = FrOk false /\
+  factory_call tree_cvprog 2 false (Some 4) [VImpl false; VErr None] = FrErr 4 /\
+  factory_call tree_cvprog 1 false None [VImpl false; VErr (Some 3)] = FrPanic 3 /\
+  factory_call tree_cvprog 2 false None [VImpl false] = FrOk false /\
+  (exists g er, grun fixed [1] (ginit [1])
+     [GvPool 0 (PvPre (pf_pre_outcome (factory_call tree_cvprog 2 false None [VImpl false; VErr (Some 3)]))); GvEngRecv 0] = Some g /\
+     eng g = Some er /\ er_res er = RFail CGunFactory).
 Proof. repeat split. eexists. eexists. split; [vm_compute; reflexivity|repeat split]. Qed.
